@@ -1,0 +1,10 @@
+//go:build !verif
+// +build !verif
+
+package erpc
+
+// verifGate is a no-op outside verif builds (see verif_hooks.go).
+func verifGate(point string, s *session) {}
+
+// verifStatus is a no-op outside verif builds (see verif_hooks.go).
+func verifStatus(s *session, to int32) {}
